@@ -1,4 +1,5 @@
 import Lemmas
+import Props.C11
 /-!
 # C15 — HiddenFS is transparent for everything that is not hidden (lexical part)
 
@@ -85,5 +86,40 @@ example : translate (mk ["/var/opt/backups".toList]) (.mkdir "/var/opt/backups2"
     = .ok (.mkdir "/var/opt/backups2".toList 0o755) := by decide
 example : translate (mk ["/var/opt/backups".toList]) (.rename "/a".toList "/b//c".toList)
     = .ok (.rename "/a".toList "/b//c".toList) := by decide
+
+/-- T15.R  `RemoveAll` is transparent too when no hidden path is related to the argument (neither
+at or below it nor one of its ancestors): on the link-free OS model behind `PrefixFS`, for an
+existing entry `k ≠ /` whose subtree fits the walk's depth bound, `HiddenFS.RemoveAll` returns nil,
+removes the whole subtree and touches nothing else — the result and effect of the underlying
+`RemoveAll` (`Sim.removeAll_ok`, `Sim.removeAll_frame`).  With hidden paths below the argument the
+difference is exactly the spared set of `Props.C11.removeAll_spares_hidden` /
+`removeAll_removes_the_rest`. -/
+theorem removeAll_transparent_linkfree_partial (bk kk : Key) (hbk : PKey bk) (hkk : PKey kk)
+    (hne1 : bk ≠ []) (hne2 : kk ≠ []) (hd1 : ¬ bk <+: kk) (hd2 : ¬ kk <+: bk)
+    (hks : List Key) (hp : ∀ h ∈ hks, PKey h) (k : Key) (hk : PKey k) (hne : k ≠ [])
+    (m : MFS) (hg : OSGood bk kk m) (fuel : Nat)
+    (hunrel : ∀ h ∈ hks, ¬ h <+: k ∧ ¬ k <+: h)
+    (hex : osView bk kk .base m k ≠ none)
+    (hht : ∀ j, k <+: j → osView bk kk .base m j ≠ none → j.length < k.length + fuel) :
+    let res := hiddenRemoveAll (HiddenFS.mk (hks.map kp)) ((osCfg bk kk).side .base) fuel m (kp k)
+    res.2 = .ok () ∧
+    (∀ j, k <+: j → osView bk kk .base res.1 j = none) ∧
+    (∀ j, ¬ k <+: j → osView bk kk .base res.1 j = osView bk kk .base m j) ∧
+    osView bk kk .backup res.1 = osView bk kk .backup m := by
+  intro res
+  have hvis : ¬ ∃ h ∈ hks, h <+: k := fun ⟨h, hh, hpre⟩ => (hunrel h hh).1 hpre
+  have hok := Props.C11.removeAll_succeeds bk kk hbk hkk hne1 hne2 hd1 hd2 hks hp k hk hne m hg fuel hvis hex hht
+  have hsafe := Props.C11.removeAll_spares_hidden bk kk hbk hkk hne1 hne2 hd1 hd2 hks hp k hk hne m hg fuel
+  have hrest := Props.C11.removeAll_removes_the_rest bk kk hbk hkk hne1 hne2 hd1 hd2 hks hp k hk hne m hg fuel hok
+  refine ⟨hok, ?_, hsafe.2.2.1, hsafe.2.1⟩
+  intro j hj
+  apply hrest j hj
+  · rintro ⟨h, hh, hpre⟩
+    -- a hidden key at or above `j` (which is below `k`) would be related to `k`
+    rcases List.prefix_or_prefix_of_prefix hpre hj with h1 | h1
+    · exact (hunrel h hh).1 h1
+    · exact (hunrel h hh).2 h1
+  · rintro ⟨⟨h, hh, hpre, _⟩, _⟩
+    exact (hunrel h hh).2 (hj.trans hpre)
 
 end Props.C15
